@@ -99,6 +99,7 @@ def check_case(args):
   marker = fdl.Config(fnA, 'REPLACEMENT')
   exp = _expected_after_replace(r3, {id(b) for b in m3})
   keep_ids = {id(b): b for b in nodes3 if id(b) not in {id(x) for x in m3}}
+  must_survive = exp_reachable_ids(nodes3, r3, {id(x) for x in m3})   # computed BEFORE the edit
   try:
     selectors.select(r3, target, match_subclasses=msub, buildable_type=btype).replace(marker, deepcopy=False)
   except Exception as e:   # pylint: disable=broad-except
@@ -111,7 +112,7 @@ def check_case(args):
   # every non-matching Buildable that is still reachable (not inside a replaced subtree) is the
   # same object; the ones outside replaced subtrees must still be reachable
   for i, b in keep_ids.items():
-    if i in exp_reachable_ids(nodes3, r3, {id(x) for x in m3}) and i not in after_nodes:
+    if i in must_survive and i not in after_nodes:
       bad('a non-matching Buildable lost its identity (it was rebuilt or dropped)')
   return 1, 1 if want else 0, viols, ([dict(shape=dags.label(shape), target=target.__name__, msub=msub)]
                                       if len(want) > 1 else [])
@@ -207,14 +208,18 @@ def run(tier='quick', seed=0, nproc=16):
   jobs = []
   for shape in dags.shapes_upto(n, kinds='CPLD', root_kinds='CP'):
     cidx = [i for i, (k, _) in enumerate(shape) if k in 'CP']
-    assigns = list(itertools.product(range(len(CALLABLES)), repeat=len(cidx)))
-    if tier == 'quick' and len(assigns) > 16:
-      assigns = gen.shuffled(assigns, salt=len(shape))[:16]
+    # every Buildable node is given the function, the base class or the derived class
+    assigns = list(itertools.product((0, 1, 2), repeat=len(cidx)))
+    if tier == 'quick' and len(shape) == 3 and len(cidx) == 3:
+      # chains and diamonds of three Buildables: all 27 assignments; other 3-node shapes sampled
+      pass
+    elif tier == 'quick' and len(assigns) > 9:
+      assigns = gen.shuffled(assigns, salt=len(shape))[:9]
     for a in assigns:
       amap = {i: a[t] for t, i in enumerate(cidx)}
-      for target in (0, 1, 2):
+      for target in (0, 1):
         for msub in (True, False):
-          for bt in (('Buildable',) if tier == 'quick' and len(shape) == 3 else ('Buildable', 'Config', 'Partial')):
+          for bt in ('Buildable', 'Config', 'Partial'):
             jobs.append((shape, tuple(amap.get(i, 0) for i in range(len(shape))), target, msub, bt))
   res = common.pmap(check_case, gen.shuffled(jobs), nproc)
   res.append(tag_iter_case())
